@@ -1683,6 +1683,14 @@ def get_variable_regex(variable_format: Literal['meson', 'cmake', 'cmake@'] = 'm
         ''', re.VERBOSE)
     return regex
 
+def _keep_line_ending(template_line: str, define_line: str) -> str:
+    # The define helpers terminate their result with '\n'; give the line
+    # back the terminator it had in the template.
+    for ending in ('\r\n', '\r'):
+        if template_line.endswith(ending):
+            return define_line[:-1] + ending
+    return define_line
+
 def do_conf_str(src: str, data: T.List[str], confdata: 'ConfigurationData',
                 variable_format: Literal['meson', 'cmake', 'cmake@'],
                 subproject: T.Optional[SubProject] = None) -> T.Tuple[T.List[str], T.Set[str], bool]:
@@ -1708,7 +1716,7 @@ def do_conf_str_meson(src: str, data: T.List[str], confdata: 'ConfigurationData'
     for line in data:
         if line.lstrip().startswith(search_token):
             confdata_useless = False
-            line = do_define_meson(regex, line, confdata, subproject)
+            line = _keep_line_ending(line, do_define_meson(regex, line, confdata, subproject))
         else:
             if re.search(r'#\s*cmakedefine', line):
                 raise MesonException(f'Format error in {src}: saw "{line.strip()}" when format set to "meson"')
@@ -1741,7 +1749,7 @@ def do_conf_str_cmake(src: str, data: T.List[str], confdata: 'ConfigurationData'
                 from ..interpreterbase.decorators import FeatureNew
                 FeatureNew.single_use('whitespace between `#` and `cmakedefine`', '1.9.0', subproject)
             confdata_useless = False
-            line = do_define_cmake(line, confdata, at_only, subproject)
+            line = _keep_line_ending(line, do_define_cmake(line, confdata, at_only, subproject))
         else:
             if '#mesondefine' in line:
                 raise MesonException(f'Format error in {src}: saw "{line.strip()}" when format set to "{variable_format}"')
